@@ -135,12 +135,14 @@ class Builder:
         self._mark()
         return t
 
-    def backward(self, t, seed=None):
+    def backward(self, t, seed=None, non_owning=False):
         s = {"op": "backward", "t": t.name, "seed": None}
         mseed = None
         if seed is not None:
             seed = np.asarray(seed, dtype=np.int64)
             s["seed"] = {"shape": list(seed.shape), "vals": exactops.flat(seed), "dtype": "float64"}
+            if non_owning:
+                s["seed"]["non_owning"] = True
             mseed = exactops.flat(np.broadcast_to(seed, t.shape))
         self.stmts.append(s)
         self.mstmts.append(("backward", t.node, mseed))
